@@ -46,7 +46,8 @@ class BaseParser(Plugin):
     def parse_file(self, filename, file_suffix=None):
         if file_suffix is not None:
             filename = filename + file_suffix
-        self.filename = filename
+        # a file object is not a file name (errors could not be rendered with it)
+        self.filename = filename if isinstance(filename, (str, bytes)) else BaseParser.filename
         open_file = pybtex.io.open_unicode if self.unicode_io else pybtex.io.open_raw
         with open_file(filename, encoding=self.encoding) as f:
             try:
